@@ -84,6 +84,12 @@ InitCase ==
      /\ \E o1 \in Ops, o2 \in Ops, j \in 1..NLit, ng \in BOOLEAN :
           LET run == <<A1, o1, B1, o2, NegIf(ng, NumLit(Lits[j]))>>
           IN case = Mk("lit-last", Climb(run), <<61>> \o RenderRun(run, Style0), 1)
+  \/ /\ "lit" \in Families          \* a percent literal IS the decimal it stands for: 35% = 0.35, 7% = 0.07, 150% = 1.5
+     /\ \E m \in 1..199, sw \in BOOLEAN :
+          LET pct == NumLit(NatToCodes(m) \o <<37>>)
+              dec == NumLit(NatToCodes(m \div 100) \o <<46>> \o <<48 + ((m % 100) \div 10), 48 + (m % 10)>>)
+              run == IF sw THEN <<dec, "=", pct>> ELSE <<pct, "=", dec>>
+          IN case = Mk("lit-pct-eq", Climb(run), <<61>> \o RenderRun(run, Style0), 1)
   \/ /\ "gap" \in Families
      /\ \E o1 \in Ops, o2 \in Ops, cls \in {"lead", "trail", "opl", "opr"}, g \in 1..3 :
           LET run == <<A1, o1, B1, o2, C1>>
